@@ -3,6 +3,8 @@ package main
 import (
 	"fmt"
 	"go/ast"
+	"os"
+	"path/filepath"
 	"sort"
 	"strings"
 	"unicode"
@@ -274,6 +276,118 @@ func init() {
 		skeleton("pkg/aggregation/sorting/sorter.go", "Reverse", "reverseSkel")
 		skeleton(helpFile, "BuildSorter", "buildSorterSkel")
 		skeleton("pkg/aggregation/accumulator.go", "AccumulatingGroup.Groups", "groupsSkel")
+
+		// round 4b: WHERE the stateful closures are created.  (a) no package-level variable of the sorting packages or the
+		// commands may hold a closure made by ByContextual / ByContextualEx / ByDate / ByDateWithContextual (it would be shared
+		// by every BuildSorter call of the process); (b) every command builds its sorters by its own BuildSorterOrFail calls,
+		// outside any closure (once, before the aggregation loop), one call per axis.
+		{
+			statefulCtor := func(n ast.Node) bool {
+				hit := false
+				ast.Inspect(n, func(x ast.Node) bool {
+					call, ok := x.(*ast.CallExpr)
+					if !ok {
+						return true
+					}
+					name := ""
+					switch f := call.Fun.(type) {
+					case *ast.Ident:
+						name = f.Name
+					case *ast.SelectorExpr:
+						name = f.Sel.Name
+					}
+					switch name {
+					case "ByContextual", "ByContextualEx", "ByDate", "ByDateWithContextual":
+						hit = true
+					}
+					return true
+				})
+				return hit
+			}
+			files := []string{helpFile}
+			if ents, err := os.ReadDir(filepath.Join(c.Repo, "pkg/aggregation/sorting")); err == nil {
+				for _, e := range ents {
+					if strings.HasSuffix(e.Name(), ".go") && !strings.HasSuffix(e.Name(), "_test.go") {
+						files = append(files, "pkg/aggregation/sorting/"+e.Name())
+					}
+				}
+			}
+			cmdFiles := []string{"cmd/histo.go", "cmd/bargraph.go", "cmd/tabulate.go", "cmd/heatmap.go", "cmd/spark.go", "cmd/reduce.go"}
+			files = append(files, cmdFiles...)
+			sort.Strings(files)
+			var globals []string
+			for _, rel := range files {
+				f := c.File(rel)
+				if f == nil {
+					globals = append(globals, leanStr(rel+": unreadable"))
+					continue
+				}
+				for _, d := range f.Decls {
+					gd, ok := d.(*ast.GenDecl)
+					if !ok {
+						continue
+					}
+					for _, sp := range gd.Specs {
+						vs, ok := sp.(*ast.ValueSpec)
+						if !ok {
+							continue
+						}
+						for i, v := range vs.Values {
+							if statefulCtor(v) {
+								nm := "_"
+								if i < len(vs.Names) {
+									nm = vs.Names[i].Name
+								}
+								globals = append(globals, leanStr(rel+": "+nm))
+							}
+						}
+					}
+				}
+			}
+			fmt.Fprintf(&sb, "/-- package-level variables (sorting package, cmd/helpers/sorting.go, the commands) whose initialiser creates a stateful sorter closure -/\ndef statefulGlobals : List String := [%s]\n\n", strings.Join(globals, ", "))
+
+			var sites []string
+			for _, rel := range cmdFiles {
+				f := c.File(rel)
+				if f == nil {
+					sites = append(sites, fmt.Sprintf("(%s, 0, \"unreadable\")", leanStr(rel)))
+					continue
+				}
+				var walk func(n ast.Node, depth int)
+				walk = func(n ast.Node, depth int) {
+					ast.Inspect(n, func(x ast.Node) bool {
+						switch y := x.(type) {
+						case *ast.FuncLit:
+							if y != n {
+								walk(y.Body, depth+1)
+								return false
+							}
+						case *ast.AssignStmt:
+							txt := flat(y)
+							if strings.Contains(txt, "BuildSorter") || statefulCtor(y) {
+								sites = append(sites, fmt.Sprintf("(%s, %d, %s)", leanStr(rel), depth, leanStr(txt)))
+							}
+						case *ast.DeclStmt:
+							if gd, ok := y.Decl.(*ast.GenDecl); ok {
+								for _, sp := range gd.Specs { // printed per spec: the doc comment of the declaration is not part of it
+									txt := gd.Tok.String() + " " + flat(sp)
+									if strings.Contains(txt, "BuildSorter") || statefulCtor(sp) {
+										sites = append(sites, fmt.Sprintf("(%s, %d, %s)", leanStr(rel), depth, leanStr(txt)))
+									}
+								}
+							}
+						}
+						return true
+					})
+				}
+				for _, d := range f.Decls {
+					if fd, ok := d.(*ast.FuncDecl); ok && fd.Body != nil {
+						walk(fd.Body, 0)
+					}
+				}
+			}
+			fmt.Fprintf(&sb, "/-- where the commands create their sorters: (file, closure depth, statement) -/\ndef sorterSites : List (String × Nat × String) := [\n  %s]\n\n", strings.Join(sites, ",\n  "))
+		}
 
 		for _, fn := range [][2]string{
 			{"pkg/aggregation/sorting/strings.go", "ByName"}, {"pkg/aggregation/sorting/strings.go", "ByNameSmart"},
